@@ -381,18 +381,34 @@ inductive Fault
   | inCall (n : Name)       -- "Named block 'n' not allowed inside of <%call> tag"
   deriving DecidableEq, Repr
 
+mutual
+/-- every named block of a node, wherever it is nested: what the `FindNamedBlocks` visitor of
+`_Identifiers._reject_named_blocks` meets (it descends through every kind of node) -/
+def allBlocksN : Node → List Name
+  | .block (some b) _ k => b :: allBlocksL k
+  | .block none _ k => allBlocksL k
+  | .defn _ _ k => allBlocksL k
+  | .callTag k => allBlocksL k
+  | _ => []
+def allBlocksL : List Node → List Name
+  | [] => []
+  | n :: r => allBlocksN n ++ allBlocksL r
+end
+
 /-- what one `_Identifiers` instance meets when it visits its node: it descends into blocks but not into
-defs or `<%call>` tags other than its own node -/
+defs or `<%call>` tags other than its own node; a def that is not its own node is searched for named blocks
+(`_reject_named_blocks`, since 14dadc4) -/
 inductive Entry
   | nblock (n : Name)
   | anon (line : Nat)
   | rdef (n : Name)          -- a def whose parent is the template (`is_root()`)
   | ndef (n : Name)          -- any other def
+  | defBlock (b : Name)      -- a named block found anywhere inside the def just met
   | call
 
 mutual
 def regionN (top : Bool) : Node → List Entry
-  | .defn n _ _ => [if top then .rdef n else .ndef n]
+  | .defn n _ k => (if top then Entry.rdef n else Entry.ndef n) :: (allBlocksL k).map Entry.defBlock
   | .block (some b) _ kids => .nblock b :: regionL false kids
   | .block none ln kids => .anon ln :: regionL false kids
   | .callTag _ => [.call]
@@ -447,6 +463,12 @@ def topDefNames : List Node → List Name
   | .defn n _ _ :: r => n :: topDefNames r
   | _ :: r => topDefNames r
 
+/-- `_reject_named_blocks`: named blocks inside the defs met -/
+def defFaults : List Entry → List Fault
+  | [] => []
+  | .defBlock b :: r => Fault.inDef b :: defFaults r
+  | _ :: r => defFaults r
+
 /-- faults one `_Identifiers` traversal raises on its region -/
 def scan (rk : Root) (es : List Entry) : List Fault :=
   (match rk with
@@ -454,11 +476,12 @@ def scan (rk : Root) (es : List Entry) : List Fault :=
     | .call => (blockNamesOf es).map Fault.inCall
     | .main => dupFaults [] (topRegs es)
     | .block => [])
-  ++ dupLines [] (anonLines es)
+  ++ defFaults es ++ dupLines [] (anonLines es)
 
 /-- is the def `nm`, followed by the siblings `rest` in its scope, ever handed to a new `_Identifiers`?
 Direct children of a `<%call>` always are (`DefVisitor`); elsewhere the dictionary `topleveldefs` (template
-level) resp. `closuredefs` keeps the *last* def of a name and only that one is generated. -/
+level) resp. `closuredefs` keeps the *last* def of a name and only that one is generated.  (Named blocks inside
+a def that is not generated are still found, by `defFaults`; its anonymous-block names are not compared.) -/
 def survives (rk : Root) (nm : Name) (rest : List Node) : Bool :=
   match rk with
   | .call => true
